@@ -113,6 +113,28 @@ CHECKS = {
              "sequences: the data source of a blocked generator fit / transform raises part-way.",
         note="'transform changed some attribute of the estimator' is reported as drift only (stricter than the statement).",
         tech="TLA+ protocol specification + TLC-generated histories incl. fault steps + trace validation"),
+    "C14": dict(
+        cat="model_checking", ref="5 (C14), 4.2",
+        text="Cooc.tla carries the vocabulary setting (excluded tokens, mask on/off): removed tokens are deleted or replaced in "
+             "place by the mask index; TLC checks MaskKeepsPositions and NullifyRemovesOnlyTheMask (mask row / columns zero, every "
+             "other un-normalised cell equal to the masked computation) on every instance; instances (token and timed "
+             "vectorizers, 3 kernels, all orientations, window / kernel normalisation, offsets, two windows) are replayed through "
+             "fit_transform and fit().transform with excluded_tokens / mask_string / nullify_mask and compared label-wise, "
+             "including the position of the mask entry in the dictionary. Tree.tla does the same for the tree vectorizer "
+             "(contraction vs relabelling) and Ngram.tla for the position-preserving part of NgramVectorizer.",
+        note="Pruning by excluded tokens (occurrence-bound pruning is C05); multiset and n-gram co-occurrence masks are not "
+             "given their own instances.",
+        tech="functional TLA+ specifications with masking invariants + TLC enumeration replayed into the code"),
+    "C15": dict(
+        cat="model_checking", ref="5 (C15), 4.10",
+        text="Tree.tla defines entry (a, b) as the kernel-weighted number of k-step ancestor walks between nodes labelled a and b, "
+             "for the four orientations, with label removal as contraction (children re-parented to the nearest kept ancestor) or "
+             "masking; TLC checks on every instance that contraction preserves reachability, shortens walks by exactly the "
+             "removed nodes, and that on path graphs the entry equals the sequence co-occurrence definition. Instances (forests "
+             "of 1-2 trees on <= 4-5 nodes, all parent functions, 3 labels, radius 1-3, 3 kernels) are replayed through "
+             "fit_transform / fit().transform; path graphs also through TokenCooccurrenceVectorizer.",
+        note="Seeded sample of the instance space per run (600 quick / 15000 thorough); unit edge weights.",
+        tech="functional TLA+ specification + TLC per-instance evaluation with lemmas, replayed into the code"),
     "C16": dict(
         cat="model_checking", ref="5 (C16), 4.8",
         text="LZ.tla is the parse state machine of lempel_ziv_based_encode (start, end, dictionary with insertion order, "
